@@ -3,6 +3,7 @@ package c10
 import (
 	"fmt"
 	"math"
+	"reflect"
 	"sort"
 
 	"pgregory.net/rapid"
@@ -278,6 +279,15 @@ func step2(in []kit.Seg, loops0 int, op op2, o *kit.Obs) (out []kit.Seg, stop st
 	diag, size := size2(in)
 	vi := vertSet2(in)
 	o.Label("op:" + op.K)
+	// every 2D operation returns a new mesh and leaves the one it was applied to alone
+	defer func() {
+		if err != nil {
+			return
+		}
+		if after := canonSegs(m3.Segs(mesh)); !reflect.DeepEqual(after, canonSegs(in)) {
+			err = fmt.Errorf("%s changed the mesh it was applied to: %d segments before, %d after", op.K, len(in), len(after))
+		}
+	}()
 	switch op.K {
 	case "decimate":
 		max := op.I[2]
